@@ -119,6 +119,8 @@ def install(extra_numbers=True):
             d["ShapelyPolygon"] = shapely_lite.Polygon
         if "ShapelyPoint" in d:
             d["ShapelyPoint"] = shapely_lite.Point
+        if "STRtree" in d:
+            d["STRtree"] = shapely_lite.STRtree
         for alias in ("np", "npy", "numpy"):
             if alias in d and getattr(d[alias], "__name__", "") == "numpy":
                 d[alias] = npx
